@@ -256,7 +256,7 @@ func raceC13() {
 func runRaceBuild(r *core.Run) {
 	bin := os.Getenv("VERIF_RACE_BIN")
 	if bin == "" {
-		r.Extra["race_build"] = "not available (no cgo toolchain); data-race clause not examined"
+		r.SetExtra("race_build", "not available (no cgo toolchain); data-race clause not examined")
 		return
 	}
 	ctx, cancel := context.WithTimeout(context.Background(), 5*time.Minute)
@@ -268,7 +268,7 @@ func runRaceBuild(r *core.Run) {
 	err := cmd.Run()
 	text := out.String()
 	n := strings.Count(text, "WARNING: DATA RACE")
-	r.Extra["race_build"] = fmt.Sprintf("executed, %d data race reports", n)
+	r.SetExtra("race_build", fmt.Sprintf("executed, %d data race reports", n))
 	if ctx.Err() != nil {
 		r.Break("race build timed out")
 		return
